@@ -6,12 +6,79 @@ import os
 ROOT = os.path.dirname(os.path.dirname(os.path.abspath(__file__)))
 
 # id -> (technique, level text, level note, design ref)
+EXH = "exhaustive small-world enumeration + Hypothesis-generated cases"
 CHECKS = {
     "C01": (
-        "exhaustive small-world enumeration + Hypothesis generated pairs/histories against a definitional reference model (combinations + order-isomorphism)",
-        "Every (pattern, permutation) pair below a length bound is enumerated and every entry point compared, as a list, with an independent oracle; above the bound Hypothesis plants occurrences, colours and re-uses memoised pattern objects across targets. Exploration is the right level: the property is universally quantified over an infinite domain, the search code is branchy but has no hidden state beyond the per-pattern memo, so complete small worlds plus generated larger ones reach the off-by-one and memo faults it can have.",
-        "Trusted: pv/oracle.py (itertools.combinations + order isomorphism). Bounded: exhaustive |p|<=4,|t|<=6 quick (|p|<=5,|t|<=7 thorough); generated up to |p|<=6,|t|<=12.",
+        EXH + " against a definitional reference model (combinations + order-isomorphism); histories re-using memoised pattern objects",
+        "Every (pattern, permutation) pair below a length bound is enumerated and every entry point compared, as a list, with an independent oracle; above the bound Hypothesis plants occurrences, colours and re-uses memoised pattern objects across targets. Exploration is the right level: the property is universally quantified over an infinite domain; complete small worlds plus generated larger ones reach the off-by-one and memo faults the pruned backtracking search can have.",
+        "Trusted: pv/oracle.py. Bounded: exhaustive |p|<=4,|t|<=6 quick (|p|<=5,|t|<=7 thorough); generated up to |p|<=6,|t|<=12.",
         "DESIGN.md 4/C01",
+    ),
+    "C02": (
+        "model-based stateful testing: generated query histories (op-list strategy and Hypothesis RuleBasedStateMachine) interpreted against a brute-force model of Av(basis)",
+        "Histories of count / of_length / iterators / up_to_length / first / membership / is_subclass / clear_cache / re-creation are run side by side with ref.av (filter of S_n) and compared after every step; iterators are drained at the end. Exploration: the state space of the level cache with in-place compaction is only reachable through histories, which the generator produces and shrinks as one value.",
+        "Trusted: reference (mesh) containment. Bounded: n<=7 classical (8 thorough), n<=5 mesh; <=12 ops per history. Open findings F4 (first on mesh classes), F5 (is_subclass with mesh bases) are classified by exact defect models.",
+        "DESIGN.md 4/C02",
+    ),
+    "C03": (
+        EXH + " against a cell-counting reference model; bivincular family against adjacency semantics",
+        "All 2^((k+1)^2) shadings of all patterns of length <=2 against all permutations up to the bound, all adjacency-requirement sets up to length 3, every entry point; generated larger patterns and mixed lists. Exploration over complete small worlds is the right level for a property quantified over all shadings.",
+        "Trusted: oracle mesh_occ and the adjacency formulation (cross-checked against each other in the self-test). Bounded: |t|<=5 quick / 6 thorough exhaustive; generated |p|<=4,|t|<=8.",
+        "DESIGN.md 4/C03",
+    ),
+    "C04": (
+        EXH + "; oracle = the eight affine maps of the square on points and cell centres; metamorphic two-sided equivariance",
+        "Each library symmetry is compared with the geometric map on every permutation up to the bound and on mesh patterns; dihedral relations, all_syms = orbit (closure under reverse/inverse), set helpers, lex_min constant on orbits, CLI output; equivariance of containment under all eight symmetries.",
+        "Trusted: direction conventions fixed by the documented examples (checked in the self-test). Bounded: all perms <=7 quick / 8 thorough; mesh patterns <=1 exhaustive quick, <=2 thorough, generated <=4.",
+        "DESIGN.md 4/C04",
+    ),
+    "C05": (
+        "Hypothesis-generated multisets of patterns of all kinds built in every order + exhaustive small classical multisets; oracle = containment-minimal elements and brute-force class equality",
+        "Each multiset is built in all orders (<=24) and with repetitions through every constructor (lists, tuples, one-shot iterators, strings 0/1-based); results must be equal, hash-equal, antichains, equal to the reference minimal elements, fixed points, same class, same Av object.",
+        "Trusted: oracle mesh-in-mesh containment. Bounded: <=4 patterns, lengths <=4 (mesh <=3), class equality to n=5.",
+        "DESIGN.md 4/C05",
+    ),
+    "C06": (
+        EXH + "; semantic oracle: composition of occurrences in every permutation up to |B|+1 (exact bound) + independent region arithmetic",
+        "Every reported occurrence of A in B is composed with every reference occurrence of B in every permutation of length <=|B|+1; induced sub-patterns are checked to be implied and strongest (every unshaded cell witnessed).",
+        "Trusted: oracle mesh_occ. The bound |B|+1 is exact (DESIGN.md). Bounded: |B|<=3 quick / 4 thorough generated; |B|<=1 all shadings, |B|=2 all shadings for sub-patterns.",
+        "DESIGN.md 4/C06",
+    ),
+    "C08": (
+        "Hypothesis-generated pairs/triples across the pattern hierarchy + exhaustive small worlds; oracle = algebraic laws; hash lifetimes under generated allocation histories",
+        "Equivalence laws, equal-implies-equal-hash, strict total order laws and operator consistency on every pair of mesh-type representations of patterns of length <=1, all pairs of permutations of length <=4, generated triples incl. twins; hash stability across allocation bursts and set/dict lookups through equal twins.",
+        "Trusted: the laws themselves; (length, lex) order on tuples. Cross-family symmetry of == is deliberately not asserted (see evidence assumptions).",
+        "DESIGN.md 4/C08",
+    ),
+    "C09": (
+        EXH + "; oracle = enumeration order, independent rank formula, stable-rank standardisation, round trips",
+        "All ranks/permutations up to length 7 (8 thorough), first(k) for every k, all notations; large ranks up to sum k!, k<=12; standardisation of ints/floats/strings/Fractions/tuples/bools with ties and memo histories; validated constructor accepts exactly bijections; MeshPatt rank/unrank/of_length bijective.",
+        "Trusted: oracle std/rank. Domain limits stated in evidence (hashable comparable inputs; from_integer leading zero; str round trip <=10).",
+        "DESIGN.md 4/C09",
+    ),
+    "C10": (
+        EXH + "; oracle = point configurations + standardisation, definitional interval/run scanners, children/coveredby duality",
+        "Every permutation up to length 6 (7 thorough) with all argument values for insert/remove/shifts; all ordered pairs of length <=4 for composition and sums; generated triples and inflate component lists with None/empty components.",
+        "Trusted: oracle definitions. is_strongly_simple not asserted (docstring and code disagree, no independent definition).",
+        "DESIGN.md 4/C10",
+    ),
+    "C11": (
+        EXH + "; oracle = table of independent definitions for 27 of 32 named statistics and all listings; iff-oracle for the distribution / preservation tools",
+        "All permutations up to length 7 (8 thorough) x every statistic, listing and count; tools checked on generated classes and bijections-as-data with the defining identity evaluated on oracle values.",
+        "Five statistics (bounces, fore/after maxima/minima) have only a weak oracle. Open findings F6 (LIS/LDS bound to longest run) and F16 (layer decomposition) are classified by exact defect models.",
+        "DESIGN.md 4/C11",
+    ),
+    "C12": (
+        "exhaustive enumeration of all permutations up to the bound + generated longer ones; oracle = device simulation with real containers, characterisations by reference containment, family definitions, Greene's theorem",
+        "One pass of each device, sortable predicates, pattern characterisations, sort counts, the whole Simion-Schmidt map per length (bijection, fixed minima, inverse, rejection), named families from their definitions.",
+        "Trusted: oracle devices; characterisations are cross-checked against the devices in the self-test before use. 'smooth' = docstring definition.",
+        "DESIGN.md 4/C12",
+    ),
+    "C18": (
+        EXH + "; oracle = equality of container sets up to |p|+2 (+3 thorough) by reference containment; semantic point insertion; own plot parser",
+        "Whenever can_shade / can_simul_shade / shadable_boxes license cells, the permutations containing the pattern before and after shading are compared; add_point/add_increase/add_decrease against 'some occurrence has a point (pair) in the cell'; ascii_plot parsed back.",
+        "Bounded witness length (|p|+2 quick); all patterns of length <=2 exhaustive, generated 3-4.",
+        "DESIGN.md 4/C18",
     ),
 }
 
